@@ -105,7 +105,8 @@ Fixpoint nlookup {V} (k : nat) (l : list (nat * V)) : option V :=
   end.
 Definition mem (k : name) (l : list name) : bool := existsb (name_eqb k) l.
 
-Inductive value := VInt (z : Z) | VMod (id : nat) | VBool (b : bool) | VNil.
+(* a module object: identity, name, and the globals array it adopted (Module.UseGlobals) when its body completed *)
+Inductive value := VInt (z : Z) | VMod (id : nat) (n : name) (arr : nat) | VBool (b : bool) | VNil.
 Notation env := (list (name * value)).
 
 Inductive expr := EPath (p : list name) | ESame (p q : list name).
@@ -136,11 +137,10 @@ Inductive event :=
 | EvObs (v : obsval) (d : nat).
 
 Record st := {
-  cache : list (name * nat);            (* vm.modules: name -> module object *)
+  cache : list (name * (nat * nat));    (* vm.modules: name -> module object (identity, adopted globals array) *)
   compiled : list name;                 (* importer codeCache keys *)
   loaded : list (name * nat);           (* vm.loadedCode for module root code (code identity = name): -> globals array *)
   arrays : list (nat * env);            (* globals arrays by id; 0 is the main program's *)
-  mods : list (nat * (name * nat));     (* module objects: id -> (name, adopted globals array) *)
   next_arr : nat;
   next_mod : nat;
   trace : list event;                   (* newest first *)
@@ -150,12 +150,13 @@ Record st := {
   done_r : list (name * nat);           (* completed, started re-entrantly *)
   fail_nr : list (name * nat);
   fail_r : list (name * nat);
-  results : list (name * nat)           (* every successful importModule(n) = id *)
+  results : list (name * nat);          (* every successful importModule(n) = id *)
+  wlog : list (nat * option name)       (* every `x = v` executed: (globals array written, module whose code executed it) *)
 }.
 
 Definition init : st :=
-  {| cache := []; compiled := []; loaded := []; arrays := [(0, [])]; mods := []; next_arr := 1; next_mod := 0;
-     trace := []; starts := []; done_nr := []; done_r := []; fail_nr := []; fail_r := []; results := [] |}.
+  {| cache := []; compiled := []; loaded := []; arrays := [(0, [])]; next_arr := 1; next_mod := 0;
+     trace := []; starts := []; done_nr := []; done_r := []; fail_nr := []; fail_r := []; results := []; wlog := [] |}.
 
 Record ctx := {
   c_self : option name;      (* the module whose code is executing; None = main *)
@@ -170,55 +171,59 @@ Definition max_frame : nat := 1024.
 
 (* -------- field updates -------- *)
 Definition log (e : event) (s : st) : st :=
-  {| cache := cache s; compiled := compiled s; loaded := loaded s; arrays := arrays s; mods := mods s;
+  {| cache := cache s; compiled := compiled s; loaded := loaded s; arrays := arrays s;
      next_arr := next_arr s; next_mod := next_mod s; trace := e :: trace s;
      starts := starts s; done_nr := done_nr s; done_r := done_r s; fail_nr := fail_nr s; fail_r := fail_r s;
-     results := results s |}.
+     results := results s; wlog := wlog s |}.
 Definition set_array (a : nat) (e : env) (s : st) : st :=
-  {| cache := cache s; compiled := compiled s; loaded := loaded s; arrays := (a, e) :: arrays s; mods := mods s;
+  {| cache := cache s; compiled := compiled s; loaded := loaded s; arrays := (a, e) :: arrays s;
      next_arr := next_arr s; next_mod := next_mod s; trace := trace s;
      starts := starts s; done_nr := done_nr s; done_r := done_r s; fail_nr := fail_nr s; fail_r := fail_r s;
-     results := results s |}.
+     results := results s; wlog := wlog s |}.
+Definition note_write (a : nat) (who : option name) (s : st) : st :=
+  {| cache := cache s; compiled := compiled s; loaded := loaded s; arrays := arrays s;
+     next_arr := next_arr s; next_mod := next_mod s; trace := trace s;
+     starts := starts s; done_nr := done_nr s; done_r := done_r s; fail_nr := fail_nr s; fail_r := fail_r s;
+     results := results s; wlog := (a, who) :: wlog s |}.
 Definition add_result (n : name) (id : nat) (s : st) : st :=
-  {| cache := cache s; compiled := compiled s; loaded := loaded s; arrays := arrays s; mods := mods s;
+  {| cache := cache s; compiled := compiled s; loaded := loaded s; arrays := arrays s;
      next_arr := next_arr s; next_mod := next_mod s; trace := trace s;
      starts := starts s; done_nr := done_nr s; done_r := done_r s; fail_nr := fail_nr s; fail_r := fail_r s;
-     results := (n, id) :: results s |}.
+     results := (n, id) :: results s; wlog := wlog s |}.
 (* importer.Import found and compiled the source: remember the code, make a module object *)
 Definition note_compiled (n : name) (s : st) : st :=
-  {| cache := cache s; compiled := n :: compiled s; loaded := loaded s; arrays := arrays s; mods := mods s;
+  {| cache := cache s; compiled := n :: compiled s; loaded := loaded s; arrays := arrays s;
      next_arr := next_arr s; next_mod := S (next_mod s); trace := trace s;
      starts := starts s; done_nr := done_nr s; done_r := done_r s; fail_nr := fail_nr s; fail_r := fail_r s;
-     results := results s |}.
+     results := results s; wlog := wlog s |}.
 (* vm.loadCode(module.Code()) for code not loaded yet: a fresh globals array *)
 Definition load_fresh (n : name) (s : st) : st :=
   {| cache := cache s; compiled := compiled s; loaded := (n, next_arr s) :: loaded s;
-     arrays := (next_arr s, []) :: arrays s; mods := mods s;
+     arrays := (next_arr s, []) :: arrays s;
      next_arr := S (next_arr s); next_mod := next_mod s; trace := trace s;
      starts := starts s; done_nr := done_nr s; done_r := done_r s; fail_nr := fail_nr s; fail_r := fail_r s;
-     results := results s |}.
+     results := results s; wlog := wlog s |}.
 Definition begin_run (n : name) (re : bool) (d : nat) (s : st) : st :=
-  {| cache := cache s; compiled := compiled s; loaded := loaded s; arrays := arrays s; mods := mods s;
+  {| cache := cache s; compiled := compiled s; loaded := loaded s; arrays := arrays s;
      next_arr := next_arr s; next_mod := next_mod s; trace := EvStart n (S (get n (starts s))) d :: trace s;
      starts := bump n (starts s); done_nr := done_nr s; done_r := done_r s; fail_nr := fail_nr s; fail_r := fail_r s;
-     results := results s |}.
+     results := results s; wlog := wlog s |}.
 (* module.UseGlobals(code.Globals); vm.modules[name] = module *)
 Definition finish_ok (n : name) (id arr : nat) (re : bool) (d : nat) (s : st) : st :=
-  {| cache := update n id (cache s); compiled := compiled s; loaded := loaded s; arrays := arrays s;
-     mods := (id, (n, arr)) :: mods s;
+  {| cache := update n (id, arr) (cache s); compiled := compiled s; loaded := loaded s; arrays := arrays s;
      next_arr := next_arr s; next_mod := next_mod s; trace := EvDone n d :: trace s;
      starts := starts s;
      done_nr := if re then done_nr s else bump n (done_nr s);
      done_r := if re then bump n (done_r s) else done_r s;
      fail_nr := fail_nr s; fail_r := fail_r s;
-     results := (n, id) :: results s |}.
+     results := (n, id) :: results s; wlog := wlog s |}.
 Definition finish_fail (n : name) (re : bool) (s : st) : st :=
-  {| cache := cache s; compiled := compiled s; loaded := loaded s; arrays := arrays s; mods := mods s;
+  {| cache := cache s; compiled := compiled s; loaded := loaded s; arrays := arrays s;
      next_arr := next_arr s; next_mod := next_mod s; trace := trace s;
      starts := starts s; done_nr := done_nr s; done_r := done_r s;
      fail_nr := if re then fail_nr s else bump n (fail_nr s);
      fail_r := if re then bump n (fail_r s) else fail_r s;
-     results := results s |}.
+     results := results s; wlog := wlog s |}.
 
 (* -------- the importer: first extension whose file exists -------- *)
 Fixpoint find_file (T : tree) (n : name) (ext : bstr) : option modsrc :=
@@ -245,7 +250,6 @@ Definition bind (c : ctx) (loc : option env) (x : name) (v : value) (s : st) : o
   | Some l => (Some (update x v l), s)
   | None => (None, set_array (c_arr c) (update x v (arr_env (c_arr c) s)) s)
   end.
-Definition mod_arr (id : nat) (s : st) : option (name * nat) := nlookup id (mods s).
 
 Inductive rv := ROk (v : value) | RErr (e : err).
 Fixpoint walk (v : value) (p : list name) (s : st) : rv :=
@@ -253,13 +257,10 @@ Fixpoint walk (v : value) (p : list name) (s : st) : rv :=
   | [] => ROk v
   | x :: r =>
       match v with
-      | VMod id =>
-          match mod_arr id s with
-          | Some (_, a) => match lookup x (arr_env a s) with
-                           | Some v' => walk v' r s
-                           | None => RErr EAttr
-                           end
-          | None => RErr ENotModule
+      | VMod _ _ a =>
+          match lookup x (arr_env a s) with
+          | Some v' => walk v' r s
+          | None => RErr EAttr
           end
       | _ => RErr ENotModule
       end
@@ -272,29 +273,29 @@ Definition eval_path (c : ctx) (loc : option env) (p : list name) (s : st) : rv 
               | None => RErr EUnbound
               end
   end.
-Definition obs_of (v : value) (s : st) : obsval :=
+Definition obs_of (v : value) : obsval :=
   match v with
   | VInt z => OInt z
   | VBool b => OBool b
   | VNil => ONil
-  | VMod id => match mod_arr id s with Some (n, _) => OMod n id | None => OMod [] id end
+  | VMod id n _ => OMod n id
   end.
 Definition value_same (a b : value) : bool :=
   match a, b with
   | VInt x, VInt y => Z.eqb x y
-  | VMod x, VMod y => Nat.eqb x y           (* Module.Equals: pointer identity *)
+  | VMod x _ _, VMod y _ _ => Nat.eqb x y   (* Module.Equals: pointer identity *)
   | VBool x, VBool y => Bool.eqb x y
   | VNil, VNil => true
   | _, _ => false
   end.
 
 (* -------- importModule, parameterised by the evaluator of a body -------- *)
-Inductive ires := IOk (id : nat) | IErr (e : err) | IPanic | IFuel.
+Inductive ires := IOk (id : nat) (arr : nat) | IErr (e : err) | IPanic | IFuel.
 Notation runner := (ctx -> option env -> list action -> st -> outcome * option env * st).
 
 Definition import_with (run : runner) (T : tree) (exts : list bstr) (c : ctx) (n : name) (s : st) : ires * st :=
   match lookup n (cache s) with
-  | Some id => (IOk id, add_result n id s)
+  | Some (id, a) => (IOk id a, add_result n id s)
   | None =>
       match find_source T exts n with
       | None => (IErr ENotFound, log (EvReq n RNotFound) s)
@@ -313,7 +314,7 @@ Definition import_with (run : runner) (T : tree) (exts : list bstr) (c : ctx) (n
             let c' := {| c_self := Some n; c_arr := arr; c_depth := S (c_depth c);
                          c_inprog := n :: c_inprog c; c_run := get n (starts s3) |} in
             match run c' None body s3 with
-            | (OK, _, s4) => (IOk id, finish_ok n id arr re d s4)
+            | (OK, _, s4) => (IOk id arr, finish_ok n id arr re d s4)
             | (Err e, _, s4) => (IErr e, finish_fail n re s4)
             | (Panic, _, s4) => (IPanic, finish_fail n re s4)
             | (Fuel, _, s4) => (IFuel, finish_fail n re s4)
@@ -325,13 +326,13 @@ Definition import_with (run : runner) (T : tree) (exts : list bstr) (c : ctx) (n
 Definition from_one (run : runner) (T : tree) (exts : list bstr) (c : ctx) (parents : list name) (nm : name) (s : st)
   : (rv + outcome) * st :=
   match import_with run T exts c (from_name parents nm) s with
-  | (IOk id, s1) => (inl (ROk (VMod id)), s1)
+  | (IOk id a, s1) => (inl (ROk (VMod id (from_name parents nm) a)), s1)
   | (IPanic, s1) => (inr Panic, s1)
   | (IFuel, s1) => (inr Fuel, s1)
   | (IErr _, s1) =>                                   (* any error: the name is taken to be a symbol of the parent *)
       match import_with run T exts c (from_parent parents) s1 with
-      | (IOk id, s2) =>
-          match walk (VMod id) [nm] s2 with
+      | (IOk id a, s2) =>
+          match walk (VMod id (from_parent parents) a) [nm] s2 with
           | ROk v => (inl (ROk v), s2)
           | RErr _ => (inl (RErr ECannotImport), s2)
           end
@@ -374,9 +375,9 @@ Definition step_with (run : runner) (T : tree) (exts : list bstr) (c : ctx) (loc
   match a with
   | AImport path alias =>
       match import_with run T exts c path s with
-      | (IOk id, s1) =>
+      | (IOk id a, s1) =>
           let x := match alias with Some al => al | None => last_comp path end in
-          let '(loc', s2) := bind c loc x (VMod id) s1 in (OK, loc', s2)
+          let '(loc', s2) := bind c loc x (VMod id path a) s1 in (OK, loc', s2)
       | (IErr e, s1) => (Err e, loc, s1)
       | (IPanic, s1) => (Panic, loc, s1)
       | (IFuel, s1) => (Fuel, loc, s1)
@@ -390,24 +391,20 @@ Definition step_with (run : runner) (T : tree) (exts : list bstr) (c : ctx) (loc
       | (None, o, s1) => (o, loc, s1)
       end
   | ASet x v =>
-      (OK, loc, set_array (c_arr c) (update x (VInt v) (arr_env (c_arr c) s)) s)
+      (OK, loc, note_write (c_arr c) (c_self c) (set_array (c_arr c) (update x (VInt v) (arr_env (c_arr c) s)) s))
   | ACallSet p x v =>
       match eval_path c loc p s with
-      | ROk (VMod id) =>
-          match mod_arr id s with
-          | Some (_, a) =>
-              match lookup x (arr_env a s) with
-              | Some _ => (OK, loc, set_array a (update x (VInt v) (arr_env a s)) s)
-              | None => (Err EAttr, loc, s)
-              end
-          | None => (Err ENotModule, loc, s)
+      | ROk (VMod _ _ a) =>
+          match lookup x (arr_env a s) with
+          | Some _ => (OK, loc, set_array a (update x (VInt v) (arr_env a s)) s)
+          | None => (Err EAttr, loc, s)
           end
       | ROk _ => (Err ENotModule, loc, s)
       | RErr e => (Err e, loc, s)
       end
   | AObs (EPath p) =>
       match eval_path c loc p s with
-      | ROk v => (OK, loc, log (EvObs (obs_of v s) (length (c_inprog c))) s)
+      | ROk v => (OK, loc, log (EvObs (obs_of v) (length (c_inprog c))) s)
       | RErr e => (Err e, loc, s)
       end
   | AObs (ESame p q) =>
